@@ -4,12 +4,14 @@
 //!
 //!   ecdsa.sign_det     key comp msg hash rk      -> OK:r;s;hdr;v;lows     v = verify_digest under the signer's own key
 //!   ecdsa.sign_message key comp msg              -> OK:r;s;hdr;v;lows     PrivateKey::sign_message, v = Signature::verify_message
-//!   ecdsa.sign_k       key comp k msg hash       -> OK:r;s;hdr;v;lows     k = 32-byte nonce (a PrivateKey)
+//!   ecdsa.sign_k       key comp k msg hash [kc]  -> OK:r;s;hdr;v;lows     k = 32-byte nonce (a PrivateKey)
 //!   ecdsa.sign_digest  key comp digest           -> OK:r;s;hdr;v;lows     v = verify_hashbuf
 //!   ecdsa.sign_random  key comp msg hash rk ent  -> OK:v;lows;range;rec   behavioural (ent is ignored here: the model's entropy)
 //!   ecdsa.sign_verify  key comp msg hash rk key2 comp2 msg2 hash2 -> OK:v   sign with the first, verify with the second
 //!   ecdsa.verify_digest  msg pub r s hash        -> OK:v
 //!   ecdsa.verify_hashbuf digest pub r s          -> OK:v
+//!   ecdsa.verify_der msg pub der hash            -> OK:v   signature object without recovery info (Signature::from_der)
+//!   ecdsa.privkey_from_k key comp k kcomp msg hash pubcomp -> OK:<d> | OK:E   sign_with_k, then private_key_from_signature_k
 //!   ecdsa.verify_message msg pub r s             -> OK:v   (Signature::verify_message / PublicKey::verify_message / is_valid_message agree)
 //!   ecdh.derive key pub                          -> OK:<shared>
 //!   ecdh.pair   key1 comp1 key2 comp2            -> OK:<shared 1->2>;<shared 2->1>
@@ -46,6 +48,10 @@ pub fn key_of(args: &[String], i: usize, ci: usize) -> Option<Result<PrivateKey,
 }
 pub fn sig_fields(sig: &Signature) -> String {
     let c = sig.to_compact_bytes(None);
+    // the four accessors must agree with each other and with the compact form (fixed-width 32-byte fields)
+    if sig.r_hex() != hex::encode(sig.r()) || sig.s_hex() != hex::encode(sig.s()) || c.len() != 65 || c[1..33] != sig.r()[..] || c[33..65] != sig.s()[..] {
+        return "INCONSISTENT;;".into();
+    }
     format!("{};{};{}", hex::encode(sig.r()), hex::encode(sig.s()), c[0])
 }
 /// a Signature with the given scalars (no particular recovery info): via the compact form
@@ -109,7 +115,8 @@ pub fn run(op: &str, args: &[String]) -> Option<String> {
         }
         "ecdsa.sign_k" => {
             let key = okk!(some!(key_of(args, 0, 1)));
-            let k = okk!(PrivateKey::from_bytes(&some!(arg_bytes(args, 2))));
+            let kc = if args.len() > 5 { some!(flag(args, 5)) } else { true };
+            let k = okk!(PrivateKey::from_bytes(&some!(arg_bytes(args, 2)))).compress_public_key(kc);
             let msg = some!(arg_bytes(args, 3));
             let h = some!(args.get(4).and_then(|s| hash_of(s)));
             let sig = okk!(ECDSA::sign_with_k(&key, &k, &msg, h));
@@ -184,6 +191,32 @@ pub fn run(op: &str, args: &[String]) -> Option<String> {
             let pk = okk!(PublicKey::from_bytes(&some!(arg_bytes(args, 1))));
             let sig = okk!(sig_of(&some!(arg_bytes(args, 2)), &some!(arg_bytes(args, 3))));
             format!("OK:{}", vres(ECDSA::verify_hashbuf(&digest, &pk, &sig)))
+        }
+        "ecdsa.verify_der" => {
+            // a signature object WITHOUT recovery info (parsed from DER)
+            let msg = some!(arg_bytes(args, 0));
+            let pk = okk!(PublicKey::from_bytes(&some!(arg_bytes(args, 1))));
+            let sig = okk!(Signature::from_der(&some!(arg_bytes(args, 2))));
+            let h = some!(args.get(3).and_then(|s| hash_of(s)));
+            let v = ECDSA::verify_digest(&msg, &pk, &sig, h);
+            if matches!(h, SigningHash::Sha256) && (matches!(v, Ok(true)) != sig.verify_message(&msg, &pk) || matches!(v, Ok(true)) != pk.is_valid_message(&msg, &sig)) {
+                return Some("INCONSISTENT".into());
+            }
+            format!("OK:{}", vres(v))
+        }
+        "ecdsa.privkey_from_k" => {
+            // sign_with_k, then ECDSA::private_key_from_signature_k with the signer's public key in the form `pubcomp`
+            let key = okk!(some!(key_of(args, 0, 1)));
+            let k = okk!(some!(key_of(args, 2, 3)));
+            let msg = some!(arg_bytes(args, 4));
+            let h = some!(args.get(5).and_then(|s| hash_of(s)));
+            let pc = some!(flag(args, 6));
+            let sig = okk!(ECDSA::sign_with_k(&key, &k, &msg, h));
+            let pk = okk!(key.compress_public_key(pc).to_public_key());
+            match ECDSA::private_key_from_signature_k(&sig, &pk, &k, &msg, h) {
+                Ok(p) => format!("OK:{}", hex::encode(p.to_bytes())),
+                Err(_) => "OK:E".into(),
+            }
         }
         "ecdh.derive" => {
             let key = okk!(PrivateKey::from_bytes(&some!(arg_bytes(args, 0))));
